@@ -411,7 +411,7 @@ type runOutcome struct {
 // on a standard-library mutex (not a durable block for synctest) whose holder waits for the
 // simulated network (DESIGN section 0): virtual time and the driver both stop. Such a run is
 // abandoned (its goroutines stay parked, nothing of it is merged) and counted as stuck.
-var stuckLimit = 30 * time.Second
+var stuckLimit = 60 * time.Second
 var stuckDumped atomic.Bool
 
 var silenceOnce sync.Once
@@ -845,7 +845,7 @@ func TestSim(t *testing.T) {
 		t.Fatalf("parse job: %v", err)
 	}
 	silenceLogs()
-	watchdog(120 * time.Second)
+	watchdog(200 * time.Second)
 	switch job.Mode {
 	case "replay":
 		doReplay(t, &job)
